@@ -138,6 +138,13 @@ func (c Cand) funcSrc(name string) string {
 		return fmt.Sprintf("let %s (u:%s) (o:Outer) =\n  match o with\n  | First ->\n%s  | _ -> 0\n", name, targ, c.matchSrc("u", 4))
 	case "strarmdefault":
 		return fmt.Sprintf("let %s (u:%s) (s:string) =\n  match s with\n  | \"a\" ->\n%s  | _ -> 0\n", name, targ, c.matchSrc("u", 4))
+	case "earlierarmbinder":
+		// an EARLIER arm of the enclosing match binds its payload under the name of the matched parameter;
+		// the binding ends with that arm, so the match below still sees u:U
+		return fmt.Sprintf("let %s (u:%s) (p:Pay) =\n  match p with\n  | Carry u -> slice.Length [u]\n  | CarryO u ->\n    match u with\n    | First -> 1\n    | Second -> 2\n  | Plain ->\n%s", name, targ, c.matchSrc("u", 4))
+	case "afterbinder":
+		// the same, the binding match finished before the candidate starts
+		return fmt.Sprintf("let %s (u:%s) (p:Pay) =\n  let d =\n    match p with\n    | Carry u -> slice.Length [u]\n    | CarryO u ->\n      match u with\n      | First -> 1\n      | Second -> 2\n    | Plain -> 0\n  if d > 100 then\n    d\n  else\n%s", name, targ, c.matchSrc("u", 4))
 	case "untypedlambda":
 		// the target is an un-annotated lambda parameter: its type is only known after inference
 		return fmt.Sprintf("let %s (us:[]%s) =\n  let f = fun w ->\n%s  slice.Map f us\n", name, targ, c.matchSrc("w", 10))
@@ -155,7 +162,7 @@ func (c Cand) funcSrc(name string) string {
 	panic("unknown ctx " + c.Ctx)
 }
 
-const outerDecl = "type Outer =\n  | First\n  | Second\n\n"
+const outerDecl = "type Outer =\n  | First\n  | Second\n\ntype Pay =\n  | Carry of string\n  | CarryO of Outer\n  | Plain\n\n"
 
 // Files renders the candidate as the .fo files of one fc invocation.
 func (c Cand) files() (names []string, contents []string) {
@@ -593,7 +600,7 @@ func TestMatchExhaustive(t *testing.T) {
 
 // --- sampled contexts ------------------------------------------------------------------
 
-var ctxs = []string{"letrhs", "ifbranch", "elsebranch", "outerarm", "outerlastarm", "outerarmdefault", "strarmdefault", "lambda", "localfunc", "letbound", "direct"}
+var ctxs = []string{"letrhs", "ifbranch", "elsebranch", "outerarm", "outerlastarm", "outerarmdefault", "strarmdefault", "lambda", "localfunc", "letbound", "direct", "earlierarmbinder", "afterbinder"}
 var decls = []string{"plain", "plain", "generic", "andgroup", "otherfile"}
 
 func TestMatchContexts(t *testing.T) {
